@@ -423,7 +423,7 @@ use super::*;
             assert(wf_class(*self, self.classes@[i0]));
         }
 """)
-        rm.after_stmt("let members = self.get_class_members(", """        let ghost ms = members@;
+        rm.after_stmt("let members = self.get_class_members", """        let ghost ms = members@;
         proof {
             assert(ms == class_members(*self, self.classes@[i0]));
             lemma_member_cmp(sb, ms, method@);
